@@ -191,20 +191,21 @@ impl SweepCheck {
         let cfg = gen_cfg(&mut rng, profile);
         let hostile = profile.hostile_broker;
         let mut g = Gen::new(rng.next(), profile.clone());
-        g.steps_left = self.max_steps;
+        let max_steps = self.max_steps.max(profile.min_steps);
+        g.steps_left = max_steps;
         g.forced_fault = ff;
         g.forced_cancel = fc;
         if self.epilogue_polls > 0 {
             let mut d = WithEpilogue::new(g, self.epilogue_polls);
             d.round_trip = self.round_trip;
-            let (mut log, world) = run_case(&cfg, seed, &mut d, self.max_steps + self.epilogue_polls + 32);
+            let (mut log, world) = run_case(&cfg, seed, &mut d, max_steps + self.epilogue_polls + 32);
             log.epilogue = true;
             log.epilogue_from = d.from_step;
             log.epilogue_polls_max = self.epilogue_polls;
             log.hostile = hostile;
             (log, world)
         } else {
-            let (mut log, world) = run_case(&cfg, seed, &mut g, self.max_steps + 8);
+            let (mut log, world) = run_case(&cfg, seed, &mut g, max_steps + 8);
             log.hostile = hostile;
             (log, world)
         }
@@ -483,6 +484,11 @@ fn c01_cancel_heavy(r: &mut Rng) -> Profile {
     p.w_disconnect = 4;
     p.max_conns = 4;
     p.payload_max = *r.pick(&[8usize, 40, 200]);
+    // keep-alive traffic takes part in the stream: PINGREQs fall due while packets are half written
+    if r.chance(1, 2) {
+        p.keepalive_choices = vec![1, 2, 10, 60];
+        p.w_advance = 8;
+    }
     p
 }
 
@@ -581,6 +587,29 @@ fn inbound_heavy(r: &mut Rng) -> Profile {
     p.props_pct = 50;
     p.payload_max = *r.pick(&[8usize, 64, 1000]);
     p.max_conns = 6;
+    p
+}
+
+/// Inbound QoS 2 exchanges pile up (PUBRELs withheld) until the client's table is full, then the connection changes.
+fn inbound_qos2_full(r: &mut Rng) -> Profile {
+    let mut p = inbound_heavy(r);
+    p.name = "inbound-qos2-full";
+    p.min_steps = 80;
+    p.w_poll = 50;
+    p.bpub_qos_w = [1, 1, 10];
+    p.w_bpublish = 60;
+    p.w_bpubrel = 1;
+    p.w_release = 1;
+    p.w_pub = [1, 2, 2];
+    p.ack_modes = vec![AckMode::Hold, AckMode::Never];
+    p.rx_choices = vec![128, 256];
+    p.tx_choices = vec![128, 512];
+    p.payload_max = 8;
+    p.props_pct = 10;
+    p.sp_w = [2, 10, 1];
+    p.w_bclose = 3;
+    p.w_drop = 3;
+    p.max_conns = 4;
     p
 }
 
@@ -849,7 +878,7 @@ pub fn all() -> Vec<Box<dyn Check>> {
         level: "fault_enumeration",
         rule: "generated prior histories (rejected / garbled / EOF / silent / cancelled handshakes, transport failures, broker DISCONNECT, handle dropped / forgotten / into_inner, malformed broker data, arenas from 48 bytes up with up to 8 retained packets) are re-executed with a transport fault at every I/O call index and with a cancellation at every await index of every operation; each ends with connect() over a healthy whole-buffer transport to the conformant reference broker, which must succeed, start with one complete CONNECT, carry nothing over, and then complete a subscribe + QoS 1 publish + inbound QoS 1 publish round trip. Non-trivial iff the prior history ended in a failure/cancellation or left in-flight state; configurations whose empty arena cannot hold a CONNECT are excluded.",
         assumptions: COMMON_ASSUME.to_vec(),
-        workloads: vec![("session-mix", 150, 15_000, session_mix as ProfileFn), ("tiny-arena", 150, 15_000, tiny_arena), ("general", 100, 10_000, general)],
+        workloads: vec![("session-mix", 150, 15_000, session_mix as ProfileFn), ("tiny-arena", 150, 15_000, tiny_arena), ("general", 100, 10_000, general), ("inbound-qos2-full", 60, 6_000, inbound_qos2_full)],
         monitor: m::c12::check,
         max_steps: 30,
         epilogue_polls: 60,
@@ -858,7 +887,7 @@ pub fn all() -> Vec<Box<dyn Check>> {
         mode: SweepMode::Both,
         plain_from: usize::MAX,
         min_nt: (200, 2000),
-        required: vec!["reconnects_judged", "reconnects_with_inflight_state", "round_trips_completed"],
+        required: vec!["reconnects_judged", "reconnects_with_inflight_state", "round_trips_completed", "reconnects_with_full_inbound_qos2_table"],
     }),
     Box::new(SweepCheck {
         id: "C16",
